@@ -321,3 +321,34 @@ M("C12", "shared-reply-buffer", "comm/server.py",
 M("C12", "forking-free-reuse-dongle-per-thread", "comm/server.py",
   "class _TCPServerRequestHandler(socketserver.StreamRequestHandler):\n    def handle(self):\n        try:",
   "class _TCPServerRequestHandler(socketserver.StreamRequestHandler):\n    def handle(self):\n        threading.Thread(target=self._handle, daemon=True).start()\n        import time as _t\n        _t.sleep(0.02)\n\n    def finish(self):\n        pass\n\n    def _handle(self):\n        try:")
+
+# ---- C06
+M("C06", "tweak-ignored", "admin/certificate_v1.py",
+  "            if self.tweak is not None:\n                tweak = hmac.new(",
+  "            if self.tweak is not None and len(self.tweak) != 64:\n                tweak = hmac.new(")
+M("C06", "always-verify-against-root", "admin/certificate_v1.py",
+  "                current_certifier = current\n                current = chain.pop()",
+  "                current_certifier = root_of_trust\n                current = chain.pop()")
+M("C06", "middle-failure-ignored", "admin/certificate_v1.py",
+  "                if not current.is_valid(current_certifier):\n                    result[target] = (False, current.name)\n                    break",
+  "                if not current.is_valid(current_certifier) and (len(chain) == 0 or current.signed_by == self.ROOT_ELEMENT):\n                    result[target] = (False, current.name)\n                    break")
+M("C06", "parent-value-returned", "admin/certificate_v1.py",
+  "                    result[target] = (True, current.get_value(), current.get_tweak())",
+  "                    result[target] = (True, current_certifier.get_value() if hasattr(current_certifier, 'get_value') else current.get_value(), current.get_tweak())")
+M("C06", "loop-stops-one-early", "admin/certificate_v1.py",
+  "                if len(chain) == 0:\n                    result[target] = (True,",
+  "                if len(chain) <= 1 and current.signed_by != self.ROOT_ELEMENT:\n                    current = chain.pop() if chain else current\n                    result[target] = (True,")
+M("C06", "device-extractor-64", "admin/certificate_v1.py",
+  '        "device": lambda b: b[-65:],', '        "device": lambda b: b[-65:] if len(b) != 73 else b[-64:],')
+M("C06", "hmac-key-msg-swapped", "admin/certificate_v1.py",
+  "                tweak = hmac.new(\n                    bytes.fromhex(self.tweak),\n                    certifier_pubkey.serialize(compressed=False),",
+  "                tweak = hmac.new(\n                    certifier_pubkey.serialize(compressed=False),\n                    bytes.fromhex(self.tweak),")
+M("C06", "tweak-uses-compressed-key", "admin/certificate_v1.py",
+  "                    certifier_pubkey.serialize(compressed=False),\n                    hashlib.sha256,",
+  "                    certifier_pubkey.serialize(compressed=True),\n                    hashlib.sha256,")
+M("C06", "exception-means-valid", "admin/certificate_v1.py",
+  "                message, verifier_pubkey.ecdsa_deserialize(bytes.fromhex(self.signature)))\n        except Exception:\n            return False",
+  "                message, verifier_pubkey.ecdsa_deserialize(bytes.fromhex(self.signature)))\n        except Exception:\n            return True")
+M("C06", "failing-name-is-target", "admin/certificate_v1.py",
+  "                    result[target] = (False, current.name)",
+  "                    result[target] = (False, target)")
